@@ -163,6 +163,14 @@ class SchemaModel(bp.EditModel):
             for nb in numbers:
                 if nb not in used_numbers:
                     ops.append(['renumber', r.id, nb])
+            # (round 12, C14-22) the number of another simple relationship between other classes: numbers need not be unique
+            if r.kind == 'simple':
+                mine = set(d.classes_of_rel(r))
+                for o in d.rels:
+                    if o.id != r.id and o.kind == 'simple' and o.numb != r.numb and not (mine & set(d.classes_of_rel(o))) \
+                            and [x.numb for x in d.rels].count(o.numb) == 1 and [x.numb for x in d.rels].count(r.numb) == 1:
+                        ops.append(['renumber', r.id, o.numb])
+                        break
             for h in homes:
                 if h != r.home and bp.packaging_valid(d, {('rel', r.id): h}):
                     ops.append(['move_elem', 'rel', r.id, h])
